@@ -599,6 +599,21 @@ def run_zoom(aa, v, H, W, bits, nbuf, seed):
             if buffer == 0:
                 outside = ty < 0 or tx < 0 or ty + zn.shape[0] > H or tx + zn.shape[1] > W
                 cls = "%s:%s" % ("square-bbox" if (y_hi - y_lo) == (x_hi - x_lo) else "rect-bbox", "leaves-frame" if outside else "inside")
+    # history: zoom quantities were read on `mask`; a mask derived from it (inverse; a copy edited in place) zooms around ITS OWN pixels
+    if m.any():
+        for dname, dmask, dm_bool in (("invert", mask.invert(), ~m),):
+            darr = aa.Array2D(values=vals.copy(), mask=dmask)
+            zz = _a(darr.zoomed_around_mask(buffer=0).native)
+            ok = all(np.any(zz == vals[i, j]) for (i, j) in np.argwhere(~dm_bool))
+            v.ok(ok, "zoomed_around_mask:contains-unmasked:derived-mask",
+                 lambda: "%dx%d mask.%s() of a mask whose zoom was read: window %s misses unmasked values" % (H, W, dname, zz.tolist()))
+        ed = mask.copy()
+        ed[int(~m[0, 0]) * 0, 0] = False  # unmask the top-left pixel on a copy
+        me = m.copy()
+        me[0, 0] = False
+        zz = _a(aa.Array2D(values=vals.copy(), mask=ed).zoomed_around_mask(buffer=0).native)
+        v.ok(all(np.any(zz == vals[i, j]) for (i, j) in np.argwhere(~me)), "zoomed_around_mask:contains-unmasked:edited-copy",
+             lambda: "%dx%d copy of a mask (zoom read before) with pixel (0,0) unmasked in place: window %s misses unmasked values" % (H, W, zz.tolist()))
     v.nontrivial = bool(m.any())
     v.outcome = "zoom:%s" % cls
 
@@ -683,5 +698,22 @@ def run_img(aa, v, H, W, kh, kw, bits, seed):
          % (H, W, kh, kw, m.astype(int).tolist(), scales, origin, g0.tolist()[:3], g1.tolist()[:3], g2.tolist()[:3], g3.tolist()[:3], dm.mask.pixel_scales, dm.mask.origin))
     v.ok(dom.exact(d1, d0), "Imaging.apply_mask:%s:triples:data" % tag, lambda: "before %s after %s" % (d0.tolist(), d1.tolist()))
     v.ok(dom.exact(n1, n0), "Imaging.apply_mask:%s:triples:noise" % tag, lambda: "before %s after %s" % (n0.tolist(), n1.tolist()))
+    # history: the masked dataset is masked again with a mask that UNMASKS pixels the first one had masked; the result must carry
+    # the same (coordinate, data, noise) triples as masking the original dataset with that mask directly
+    if m.any() and H * W <= 9:
+        m2 = m.copy()
+        m2[tuple(np.argwhere(m)[0])] = False
+        mask2 = aa.Mask2D(mask=m2.copy(), pixel_scales=scales, origin=origin)
+        try:
+            again = dm.apply_mask(mask=mask2)
+            direct = aa.Imaging(data=aa.Array2D.no_mask(values=vals.copy(), pixel_scales=scales, origin=origin),
+                                noise_map=aa.Array2D.no_mask(values=nvals.copy(), pixel_scales=scales, origin=origin), psf=psf).apply_mask(mask=mask2)
+            v.ok(dom.exact(_a(again.data.slim), vals[~m2]), "Imaging.apply_mask:second-mask:triples:data",
+                 lambda: "first mask %s then %s: data %s want %s" % (m.astype(int).tolist(), m2.astype(int).tolist(), _a(again.data.slim).tolist(), vals[~m2].tolist()))
+            v.ok(dom.exact(_a(again.noise_map.slim), nvals[~m2]), "Imaging.apply_mask:second-mask:triples:noise")
+            ga, gd = _a(again.grids.uniform), _a(direct.grids.uniform)
+            v.ok(ga.shape == gd.shape and np.all(np.abs(ga - gd) <= tol), "Imaging.apply_mask:second-mask:triples:coordinate")
+        except Exception as e:
+            v.fail("Imaging.apply_mask:second-mask:exception", "first mask %s then %s: %r" % (m.astype(int).tolist(), m2.astype(int).tolist(), e))
     v.nontrivial = padded
     v.outcome = "img:%s:k=%dx%d" % (tag, kh, kw)
